@@ -455,10 +455,19 @@ let handle_frag (line : string) =
   match String.split_on_char '|' line with
   | [hd; msd; sc] ->
     (match split hd, split sc with
-     | ["FRAG"; ctx; tystr], [schex] ->
+     | ["FRAG"; ctx; adm; tystr], [schex] ->
+       let admitted = adm = "adm" in
        let m = parse_ms (split msd) in
        let tap = ctx = "tap" in
-       let script = (match parse_script (bytes_of_hex schex) with Some s -> s | None -> failwith "C06: script does not parse") in
+       (* "!" : the library panicked while encoding a fragment it accepted and typed; the
+          predictions are then judged on the model's encoding of the same fragment *)
+       let enc_panicked = schex = "!" in
+       let script = if enc_panicked then enc (keyenv_of tap) m else
+           (match parse_script (bytes_of_hex schex) with Some s -> s | None -> failwith "C06: script does not parse") in
+       if enc_panicked then begin
+         incr c06_bad;
+         Printf.printf "BAD C06 ctx=%s type=%s clause=encoder-panics-on-accepted-fragment lock=0 seq=0 ms=%s stack= script=!\n" ctx tystr (String.trim msd)
+       end;
        let base = tystr.[0] in
        let props = (match String.index_opt tystr '/' with Some i -> String.sub tystr (i + 1) (String.length tystr - i - 1) | None -> "") in
        let has c = String.contains props c in
@@ -531,7 +540,7 @@ let handle_frag (line : string) =
                                  a_after = (fun _ -> false); a_older = (fun _ -> false) } in
              let fits = List.exists (fun w -> List.length w <= maxlen) (all_dsat ke a0 m) in
              if has 'd' && fits && !dis_prefixes = [] then bad "d-no-signature-free-dissatisfaction-found" [];
-             if has 'e' && has 'm' && List.length !dis_prefixes > 1 then bad "e-dissatisfaction-not-unique" (List.concat !dis_prefixes)
+             if admitted && has 'e' && has 'm' && List.length !dis_prefixes > 1 then bad "e-dissatisfaction-not-unique" (List.concat !dis_prefixes)
            end;
            List.iter (fun c -> if has c then clause_hit (String.make 1 c)) ['z'; 'o'; 'n'; 'd'; 'u'; 'f'; 'e'; 's']
          ) envs
@@ -660,6 +669,8 @@ let () =
        | "SIGK" :: k :: s :: _ -> upd (fun c -> c.sigpairs <- (bytes_of_hex k, bytes_of_hex s) :: c.sigpairs)
        | "RUN" :: rest -> upd (fun c -> handle_run c rest)
        | "PLAN" :: rest -> upd (fun c -> handle_plan c rest)
+       | "END" :: "frags" :: _ -> print_endline "ENDFRAGS"
+       | "DONE" :: _ -> print_endline "ENDSAT"
        | "END" :: _ -> cur := None; Hashtbl.reset runs
        | "FRAG" :: _ -> handle_frag line
        | "HBAD" :: pid :: _ ->
